@@ -31,8 +31,9 @@ type c18Event struct {
 	Name   string `json:"name"`
 	Expr   string `json:"expr"`
 	Doc    string `json:"doc"`
-	Shared bool   `json:"shared"`        // use the history's shared parsed tree / decoder / evaluator / printer
-	Out    string `json:"out,omitempty"` // output format (default yaml)
+	Shared bool   `json:"shared"`              // use the history's shared parsed tree / decoder / evaluator / printer
+	Out    string `json:"out,omitempty"`       // output format (default yaml)
+	Hist   bool   `json:"hist_only,omitempty"` // quick tier: used in histories only, not in the schedule exploration
 }
 
 func c18Alphabet() []c18Event {
@@ -64,6 +65,23 @@ func c18Alphabet() []c18Event {
 		{Name: "two-docs-index", Expr: "document_index", Doc: "a: 1\n---\na: 2\n"},
 		{Name: "json-out", Expr: ".", Doc: "a: [1, {b: 2}]\n", Out: "json"},
 		{Name: "props-out", Expr: ".", Doc: "a: {b: 1}\n", Out: "props"},
+		// every other encoder behind a reused printer, with and without leading content
+		{Name: "xml-out-commented", Expr: ".", Doc: "# lead\na: 1\n", Out: "xml", Hist: true},
+		{Name: "xml-out", Expr: ".", Doc: "a: {b: 2}\n", Out: "xml", Hist: true},
+		{Name: "lua-out-commented", Expr: ".", Doc: "# lead\na: 1\n", Out: "lua", Hist: true},
+		{Name: "lua-out", Expr: ".", Doc: "a: {b: 2}\n", Out: "lua", Hist: true},
+		{Name: "toml-out", Expr: ".", Doc: "# lead\na: {b: 2}\n", Out: "toml", Hist: true},
+		{Name: "csv-out", Expr: ".", Doc: "# lead\n- [1, x]\n- [2, y]\n", Out: "csv", Hist: true},
+		{Name: "shell-out", Expr: ".", Doc: "# lead\na: {b: 2}\n", Out: "shell", Hist: true},
+		// both assignment forms of the operators that have one (the parsed trees of one form must not be affected by parsing the other)
+		{Name: "style-assign", Expr: ".a style = .s", Doc: "a: x\ns: double\n", Hist: true},
+		{Name: "style-update", Expr: `.a style |= "single"`, Doc: "a: x\n", Hist: true},
+		{Name: "tag-assign", Expr: ".a tag = .s", Doc: "a: x\ns: \"!!foo\"\n", Hist: true},
+		{Name: "tag-update", Expr: `.a tag |= "!!bar"`, Doc: "a: x\n", Hist: true},
+		{Name: "line-comment-assign", Expr: ".a line_comment = .s", Doc: "a: x\ns: note\n", Hist: true},
+		{Name: "line-comment-update", Expr: `.a line_comment |= "n"`, Doc: "a: x\n", Hist: true},
+		{Name: "anchor-assign", Expr: ".a anchor = .s", Doc: "a: x\ns: k\n", Hist: true},
+		{Name: "anchor-update", Expr: `.a anchor |= "m"`, Doc: "a: x\n", Hist: true},
 	}
 	return base
 }
@@ -87,6 +105,16 @@ func c18Encoder(out string) yqlib.Encoder {
 		return yqlib.NewJSONEncoder(impl.JSONPrefs())
 	case "props":
 		return yqlib.NewPropertiesEncoder(yqlib.NewDefaultPropertiesPreferences())
+	case "xml":
+		return yqlib.NewXMLEncoder(yqlib.NewDefaultXmlPreferences())
+	case "lua":
+		return yqlib.NewLuaEncoder(yqlib.NewDefaultLuaPreferences())
+	case "toml":
+		return yqlib.NewTomlEncoder()
+	case "csv":
+		return yqlib.NewCsvEncoder(yqlib.NewDefaultCsvPreferences())
+	case "shell":
+		return yqlib.NewShellVariablesEncoder()
 	}
 	return yqlib.NewYamlEncoder(impl.YamlPrefs())
 }
@@ -381,6 +409,14 @@ func c18Explore(threads []c18Event, bound int, resetParser bool, visit func(x *c
 // ---------------------------------------------------------------------------------------------------------------
 
 func c18Run(c *fw.Ctx) error {
+	// (C) race detector pass: shard 0 only; sampled, auxiliary; runs beside the explorations, its findings are recorded at the end
+	raceDone := make(chan func(), 1)
+	if c.Shard == 0 {
+		go func() { raceDone <- c18RacePass(c, c.Thorough()) }()
+	} else {
+		raceDone <- func() {}
+	}
+	defer func() { (<-raceDone)() }()
 	al := c18Alphabet()
 	var events []c18Event
 	for _, e := range al {
@@ -412,6 +448,16 @@ func c18Run(c *fw.Ctx) error {
 			hists = append(hists, []c18Event{a, b})
 		}
 	}
+	// revisits: A with retained objects, any B, A again with the objects it retained (what B leaves behind in them)
+	for _, a := range events {
+		if !a.Shared {
+			continue
+		}
+		for _, b := range events {
+			hists = append(hists, []c18Event{a, b, a})
+		}
+	}
+	nRevisit := len(hists) - len(events)*len(events)
 	var coreEvents []c18Event
 	for _, e := range events {
 		if core[e.Name] || c.Thorough() {
@@ -437,7 +483,13 @@ func c18Run(c *fw.Ctx) error {
 	if c.Thorough() {
 		bound = 3
 	}
-	c.Res.Bound = fmt.Sprintf("histories: all %d^2 pairs of events (%d events x {fresh, shared library objects}) and all %d^3 triples over the core events, each in a fresh process; schedules: all %d^2 thread pairs, every choice sequence with <= %d pre-emptions at the %d kinds of yield point", len(events), len(al), len(coreEvents), len(al), bound, 7)
+	var schedAl []c18Event
+	for _, e := range al {
+		if !e.Hist || c.Thorough() {
+			schedAl = append(schedAl, e)
+		}
+	}
+	c.Res.Bound = fmt.Sprintf("histories: all %d^2 pairs of events (%d events x {fresh, shared library objects}), all %d revisits A,B,A (A reusing its objects), and all %d^3 triples over the core events, each in a fresh process; schedules: all %d^2 thread pairs, every choice sequence with <= %d pre-emptions at the %d kinds of yield point", len(events), len(al), nRevisit, len(coreEvents), len(schedAl), bound, 7)
 	var idx int64
 	for hi, h := range hists {
 		idx++
@@ -494,8 +546,8 @@ func c18Run(c *fw.Ctx) error {
 	defer os.RemoveAll(dir)
 	var points int64
 	pointKinds := map[string]bool{}
-	for ai, a := range al {
-		for bi, b := range al {
+	for ai, a := range schedAl {
+		for bi, b := range schedAl {
 			idx++
 			if !c.Mine(idx) {
 				continue
@@ -542,42 +594,56 @@ func c18Run(c *fw.Ctx) error {
 	for k := range pointKinds {
 		c.SetAdd("yield_point_kinds", k)
 	}
-	// (C) race detector pass: shard 0 only; sampled, auxiliary
-	if c.Shard == 0 {
-		c18RacePass(c)
-	}
 	return nil
 }
 
 var c18RaceFrame = regexp.MustCompile(`github\.com/mikefarah/yq/v4/pkg/yqlib\.((?:\(\*?\w+\)\.)?\w+(?:\.func\d+)*)\(\)\n\s+(\S+?):(\d+)`)
 
-func c18RacePass(c *fw.Ctx) {
+func c18RacePass(ctx *fw.Ctx, thorough bool) func() {
+	var acts []func(c *fw.Ctx)
+	c := &c18Deferred{acts: &acts, ctx: ctx}
 	race := filepath.Join(fw.VerifDir, "bin", "mc-race")
 	if _, err := os.Stat(race); err != nil {
 		c.Note("bin/mc-race not built: race-detector pass skipped")
-		c.Res.Extra["race_pass"] = map[string]interface{}{"runs": 0, "exhaustive": false, "skipped": true}
-		return
+		c.Extra("race_pass", map[string]interface{}{"runs": 0, "exhaustive": false, "skipped": true})
+		return c.apply
 	}
 	reps := "20"
-	if c.Thorough() {
+	if thorough {
 		reps = "100"
 	}
 	work, _ := os.MkdirTemp("", "mc-c18race-")
 	defer os.RemoveAll(work)
-	cmd := exec.Command(race, "c18race", reps)
-	cmd.Env = append(os.Environ(), "GORACE=halt_on_error=0 log_path="+filepath.Join(work, "race"), "GOMAXPROCS=16", "TZ=UTC")
+	const parts = 8
 	var so bytes.Buffer
-	cmd.Stdout, cmd.Stderr = &so, &so
-	done := make(chan error, 1)
-	cmd.Start()
-	go func() { done <- cmd.Wait() }()
-	select {
-	case <-done:
-	case <-time.After(10 * time.Minute):
-		cmd.Process.Kill()
-		<-done
-		c.Note("race pass timed out")
+	var mu sync.Mutex
+	var wg sync.WaitGroup
+	for part := 0; part < parts; part++ {
+		wg.Add(1)
+		go func(part int) {
+			defer wg.Done()
+			cmd := exec.Command(race, "c18race", reps, fmt.Sprintf("%d/%d", part, parts))
+			cmd.Env = append(os.Environ(), "GORACE=halt_on_error=0 log_path="+filepath.Join(work, fmt.Sprintf("race%d", part)), "GOMAXPROCS=4", "TZ=UTC")
+			var o bytes.Buffer
+			cmd.Stdout, cmd.Stderr = &o, &o
+			done := make(chan error, 1)
+			if err := cmd.Start(); err != nil {
+				return
+			}
+			go func() { done <- cmd.Wait() }()
+			select {
+			case <-done:
+			case <-time.After(10 * time.Minute):
+				cmd.Process.Kill()
+				<-done
+				c.Note("race pass timed out")
+			}
+			mu.Lock()
+			so.Write(o.Bytes())
+			mu.Unlock()
+		}(part)
 	}
+	wg.Wait()
 	files, _ := filepath.Glob(filepath.Join(work, "race*"))
 	reports := 0
 	for _, f := range files {
@@ -611,11 +677,36 @@ func c18RacePass(c *fw.Ctx) {
 			c.Violation("race/"+strings.Join(fr, "|"), 9e9, c18Case{Kind: "race"}, "race detector report (free-running goroutines, sampled):\n"+clip(blk, 1800))
 		}
 	}
-	c.Res.Extra["race_pass"] = map[string]interface{}{"runs": reps + " repetitions per pair", "exhaustive": false, "reports": reports, "output": clip(so.String(), 300)}
+	c.Extra("race_pass", map[string]interface{}{"runs": reps + " repetitions per pair", "exhaustive": false, "reports": reports, "output": clip(so.String(), 300)})
+	return c.apply
+}
+
+// c18Deferred records what the race pass wants to report; applied to the check's context by the main goroutine.
+type c18Deferred struct {
+	acts *[]func(c *fw.Ctx)
+	ctx  *fw.Ctx
+	mu   sync.Mutex
+}
+
+func (d *c18Deferred) Note(s string) {
+	d.mu.Lock()
+	defer d.mu.Unlock()
+	*d.acts = append(*d.acts, func(c *fw.Ctx) { c.Note(s) })
+}
+func (d *c18Deferred) Extra(k string, v interface{}) {
+	*d.acts = append(*d.acts, func(c *fw.Ctx) { c.Res.Extra[k] = v })
+}
+func (d *c18Deferred) Violation(sig string, order int64, cs interface{}, detail string) {
+	*d.acts = append(*d.acts, func(c *fw.Ctx) { c.Violation(sig, order, cs, detail) })
+}
+func (d *c18Deferred) apply() {
+	for _, a := range *d.acts {
+		a(d.ctx)
+	}
 }
 
 // C18Race is run by the -race build: every pair of events concurrently, free-running.
-func C18Race(reps int) int {
+func C18Race(reps, part, parts int) int {
 	dir, err := c18PrepareDir()
 	if err != nil {
 		return 3
@@ -623,8 +714,13 @@ func C18Race(reps int) int {
 	defer os.RemoveAll(dir)
 	al := c18Alphabet()
 	mism := 0
-	for _, a := range al {
-		for _, b := range al {
+	pair := 0
+	for ai, a := range al {
+		for _, b := range al[ai:] { // both run concurrently: unordered pairs
+			pair++
+			if pair%parts != part {
+				continue
+			}
 			for r := 0; r < reps; r++ {
 				var wg sync.WaitGroup
 				for _, e := range []c18Event{a, b} {
@@ -701,7 +797,7 @@ func init() {
 	registerLater(func() {
 		fw.Register(&fw.Check{
 			ID: "C18", Level: "model_checking",
-			Rule: "(A) explicit-state over histories: every pair of 54 evaluation events (27 events built around each piece of state that outlives an evaluation - operator descriptors rewritten by the lexer, decoder singletons inside lexer rules, literals owned by a parsed tree, handlers that write into the tree, anchor maps, printer and decoder position state - x {fresh, shared library objects}) and every triple over the core events, each history in a fresh process; every event must yield the bytes it yields first in a fresh process (modulo the document separator of a reused printer). " +
+			Rule: "(A) explicit-state over histories: every pair of 84 evaluation events (42 events built around each piece of state that outlives an evaluation - operator descriptors rewritten by the lexer, decoder singletons inside lexer rules, literals owned by a parsed tree, handlers that write into the tree, anchor maps, printer and decoder position state, every encoder behind a reused printer, both assignment forms of the assignable operators - x {fresh, shared library objects}), every revisit A,B,A where A reuses the objects it retained, and every triple over the core events, each history in a fresh process; every event must yield the bytes it yields first in a fresh process (modulo the document separator of a reused printer). " +
 				"(B) stateless schedule exploration: two evaluations on separate objects under a cooperative scheduler that owns all yield hooks; DFS over every choice sequence within the pre-emption bound; each thread must return its solo bytes; replay divergence is an error. (C) auxiliary sampled race-detector pass. states = histories, transitions = schedule points; non-trivial = distinct history or thread pair",
 			Assumptions: []string{"interleavings are exhaustive at the granularity of the hooked accesses (appendix B); unsynchronised accesses elsewhere are only caught by the sampled race pass", "now/shuffle/env operators excluded as the statement excludes them"},
 			Budget: func(t string) time.Duration {
